@@ -12,7 +12,7 @@ def queries(tier):
           cs.rv('interp_bounds', tier, 1, bound='dim 1, symbolic bounds, every in-bounds pair, t in [0,1]', backends=('cadical', 'kissat')),
           cs.rv('t0', tier, 2, bound='dim 2'),
           cs.misc('time_interp', tier, bound='every in-bounds pair, t in [0,1]', backends=('cadical', 'kissat')),
-          cs.misc('discrete_interp', tier, bound='bounds within [-1000,1000], every pair, t in [0,1]', backends=('cadical', 'kissat'))]
+          cs.misc('discrete_interp', tier, bound='bounds within [-15,15], every pair, t in [0,1]', backends=('cadical', 'kissat'), defines={'DRANGE': 15})]
     for al in (1, 2):
         q = cs.so2('interp_alias', tier, bound='every in-bounds pair, every t in [0,1]; output aliases input %d' % al, defines={'ALIAS': al}, uf=('fmul', 'fadd', 'fsub'),
                    note='fmul, fadd, fsub abstracted by uninterpreted functions (sound for this equality claim)')
@@ -23,5 +23,6 @@ def queries(tier):
         q.name += '[%d]' % al
         qs.append(q)
     if tier == 'thorough':
+        qs.append(cs.misc('discrete_interp', tier, name='discrete_interp[range=1000]', bound='bounds within [-1000,1000]', backends=('cadical', 'kissat', 'minisat'), defines={'DRANGE': 1000}, timeout=1800))
         qs.append(cs.so2('t1', tier, bound='every in-bounds pair', backends=('cadical', 'kissat', 'minisat'), timeout=1800))
     return qs
